@@ -222,8 +222,15 @@ class BaseIndex(Persistent):
         result = self.family.IF.BTree()
         for docid, weight in hits.items():
             docwords = self._docwords[docid]
-            if docwords.find(code) >= 0:
-                result[docid] = weight
+            pos = docwords.find(code)
+            while pos >= 0:
+                # A hit counts only if it ends on a wid boundary: the code
+                # of a longer wid may begin with the code of the last wid.
+                end = pos + len(code)
+                if end == len(docwords) or docwords[end] >= '\x80':
+                    result[docid] = weight
+                    break
+                pos = docwords.find(code, pos + 1)
         return result
 
     def _remove_oov_wids(self, wids):
